@@ -513,8 +513,10 @@ pub fn feed<C: Autocomplete + Help>(n: &mut Sess, bytes: &[u8], mode: HMode) -> 
     (log, out, status)
 }
 
-/// one-step behaviour signature of a session under the given events (see `SKey::sig`)
-pub fn behaviour_sig<C: Autocomplete + Help>(s: &Sess, events: &[Ev], with_screen: bool) -> u64 {
+/// behaviour signature of a session to the given depth under the given events (see `SKey::sig`):
+/// depth 1 hashes, per event, the call results, sink bytes, handler calls and the canonical successor;
+/// depth k > 1 additionally hashes the depth k-1 signature of every successor
+pub fn behaviour_sig<C: Autocomplete + Help>(s: &Sess, events: &[Ev], with_screen: bool, depth: u8) -> u64 {
     use std::hash::{Hash, Hasher};
     let mut h = std::collections::hash_map::DefaultHasher::new();
     for e in events {
@@ -534,6 +536,9 @@ pub fn behaviour_sig<C: Autocomplete + Help>(s: &Sess, events: &[Ev], with_scree
             k.tcol = 0;
         }
         k.hash(&mut h);
+        if depth > 1 && calls.iter().all(|c| c.panicked.is_none()) {
+            behaviour_sig::<C>(&n, events, with_screen, depth - 1).hash(&mut h);
+        }
     }
     h.finish()
 }
